@@ -250,6 +250,14 @@ def ban_literals(ctx) -> Tuple[List[str], Func, ast.AST]:
                     try:
                         val = fold_in(rb, k.value)
                     except Unfoldable as ex:
+                        # a setting of the stage object (made configurable): its value under the default configuration
+                        from ..values import Env as _Env
+
+                        vals = ctx.ev.eval(k.value, _Env(func=rb, params={}, inst=ctx.stage("rb_method")))
+                        lists = [v for v in vals if v.kind == "list" and all(x.kind == "const" and isinstance(x.value, str) for x in v.value)]
+                        rest = [v for v in vals if v.kind != "list" and not (v.kind == "sym" and v.default is None) and not (v.kind == "const" and v.value is None)]
+                        if len(lists) == 1 and not rest:
+                            return [x.value for x in lists[0].value], rb, c
                         raise AnalysisError("the ban_atoms argument of RuleConstraint in RuleBasedMethod.run does not fold to a list of literals: %s" % ex)
                     if isinstance(val, (list, tuple)) and all(isinstance(x, str) for x in val):
                         return list(val), rb, c
